@@ -69,6 +69,14 @@ PRELUDE = [
                                           ['num', '2']]]]],
     ['routine', 'f2', ['p', 'q'], [['return', ['bin', '-', ['var', 'p'],
                                                ['var', 'q']]]]],
+    # a function that returns out of a loop nested in a light-list loop with
+    # names still to visit: nothing of those loops may reach the expression
+    # the call is an operand of
+    ['routine', 'f3', ['p'], [
+        ['repeat', ['list', [['light', ['str', 'A']], ['light', ['str', 'M']],
+                             ['light', ['str', 'Z']]], 'lt1', None],
+         [['repeat', ['count', ['num', '2']],
+           [['return', ['bin', '+', ['var', 'p'], ['num', '1']]]]]]]]],
     # a macro defined AFTER the routines, named like one of their parameters:
     # inside f2 the name still means the parameter
     ['define', 'q', ['num', '40']],
@@ -96,7 +104,7 @@ def numeric(draw, depth):
     if depth <= 0 or draw(st.integers(0, 4)) == 0:
         return leaf(draw)
     kind = draw(st.sampled_from(
-        ['bin'] * 7 + ['neg', 'call1', 'call2', 'builtin']))
+        ['bin'] * 7 + ['neg', 'call1', 'call2', 'call3', 'builtin']))
     if kind == 'bin':
         op = draw(st.sampled_from(
             ['+', '+', '-', '-', '*', '*', '/', '%', '^', '^']))
@@ -116,6 +124,8 @@ def numeric(draw, depth):
         return ['neg', numeric(draw, depth - 1)]
     if kind == 'call1':
         return ['call', 'f1', [numeric(draw, depth - 1)]]
+    if kind == 'call3':
+        return ['call', 'f3', [numeric(draw, depth - 1)]]
     if kind == 'call2':
         return ['call', 'f2', [numeric(draw, depth - 1),
                                numeric(draw, depth - 1)]]
